@@ -60,7 +60,11 @@ CLAIMED = {
              "applyResidualTake.cpp at every node, in any field (across the origin under antipodal spacing symmetry, shown necessary by a "
              "machine-checked counterexample); Dirichlet rows are the identity, other rows the documented 9-/7-point form; the Jacobian "
              "elements satisfy arr*att - art^2/4 = alpha^2/4 (ellipticity).  Tie: real ResidualGive/ResidualTake on level chains with all "
-             "cache-flag pairs and inherited caches vs the exact rational model fed with Jacobian entries evaluated at the level's own nodes.",
+             "cache-flag pairs and inherited caches vs the exact rational model fed with Jacobian entries evaluated at the level's own nodes.  "
+             "CODE LEVEL (C03c): GMGModel/Cache.lean models both LevelCache constructors (with the library node numbering and the "
+             "different splits of the two levels) and obtainValues; theorems coarsen_fresh (the sampling constructor reproduces the "
+             "fresh constructor on the coarse grid, array by array), chain_fresh, coarsen_obtain (= direct evaluation at the coarse "
+             "node); tie: every cache array of every level of real level chains, bit for bit.",
         design_ref="DESIGN.md section 4, C03", note="Lean kernel; axioms propext/Classical.choice/Quot.sound; hand model GMGModel/Stencil.lean; rounding covered by allowance 2^-40*S.",
         technique="Lean 4 proof (scatter/gather reindexing over the periodic grid) + differential correspondence in exact rationals"),
     "C05": dict(
@@ -125,8 +129,13 @@ CLAIMED = {
              "composed with take_affine); in Dirichlet mode under ellipticity NO pivot vanishes (pivots_dirichlet: every leading principal "
              "block of the operator is injective by C05, and C16.pivots_of_leading_injective — elimination without pivoting never meets a "
              "zero pivot then), so solve_inverts_dirichlet needs no pivot hypothesis, and both strategies' solutions coincide.  Tie: the real CustomLU direct solvers (give and take, 1 and 4 threads): exact residual of the returned solution with "
-             "the model operator, and — through the friend hook — every entry of the assembled CSR matrices against the operator.",
-        design_ref="DESIGN.md section 4, C04", note="across the origin (no Dirichlet inner boundary) non-vanishing pivots remain a hypothesis (C05 positive definiteness is only measured there); the absolute 1e-12 exit test of the LU (F7) is a separate hypothesis `tiny`.",
+             "the model operator, and — through the friend hook — every entry of the assembled CSR matrices against the operator.  "
+             "CODE LEVEL (C04c): GMGModel/DirectCode.lean models DirectSolverTakeCustomLU::buildSolverMatrix (per-node stores in code order "
+             "through the Stencil offset tables that tools/stencil_extract.py re-extracts from the header on every run); theorems "
+             "assemble_in_bounds (no store leaves its row), assemble_entries (the assembled CSR matrix has exactly the operator's entries), "
+             "code_solve_inverts(_dirichlet): the hypothesis `carries the operator's entries` is discharged for the code-level matrix; "
+             "tie: every CSR slot (column, value, storage order) of the real take solver, bit-identical to the model run in double.",
+        design_ref="DESIGN.md section 4, C04 and R.9", note="across the origin (no Dirichlet inner boundary) non-vanishing pivots remain a hypothesis (C05 positive definiteness is only measured there); the absolute 1e-12 exit test of the LU (F7) is a separate hypothesis `tiny`.",
         technique="Lean 4 proof (linearity + LU correctness) + exact-residual correspondence and matrix read-out"),
     "C06": dict(
         category="proof",
@@ -134,8 +143,15 @@ CLAIMED = {
              "after a sweep the residual vanishes on the last colour; Dirichlet nodes carry the data; lines of one colour are decoupled "
              "(nt even), hence the sweep is unique whenever the line blocks are injective — which is proved in Dirichlet mode from C05; the "
              "sweep does not increase the energy norm of the error in Dirichlet mode (energy_full).  Tie: outputs of the real SmootherGive / "
-             "SmootherTake must satisfy the sweep equations in exact rational arithmetic.",
-        design_ref="DESIGN.md section 4, C06", note="the smoother C++ is tied by correspondence only (spec-level model); energy monotonicity across the origin inherits the C05 gap.",
+             "SmootherTake must satisfy the sweep equations in exact rational arithmetic.  CODE LEVEL (C06c): GMGModel/SmootherCode.lean "
+             "models SmootherTake (the stored main/sub/corner arrays of every line solver and the CSR rows of the innermost circle, "
+             "temp = rhs - A_sc^ortho x, LDL^T / Sherman-Morrison / sparse LU line solves, the four colour phases in code order on a "
+             "row-major array); theorems circle_split / inner_split / radial_split (A_sc + A_sc^ortho = A row by row), *_matrix_rows (the "
+             "symmetric storage represents those rows) and code_sweep_isSweep: whatever the modelled smoothing() returns satisfies every "
+             "sweep equation of the spec (under exact line solves, which linesOK_of_spd derives from SPD line blocks), so all spec "
+             "theorems apply to the code-level sweep; tie: every stored matrix entry, temp and the sweep result of the real classes "
+             "against the model in exact rationals and in IEEE double (take path bit-identical).",
+        design_ref="DESIGN.md section 4, C06 and R.9", note="the give variant's scatter assembly and the extrapolated smoothers are tied by correspondence to the take model / the spec; energy monotonicity across the origin inherits the C05 gap.",
         technique="Lean 4 proof about the relaxation spec + defect check of the implementation's output"),
     "C07": dict(
         category="proof",
